@@ -34,8 +34,38 @@ type capture struct {
 	pre            []byte
 	sentc, sents   []byte
 	cfin, sfin     []byte
+	crng, srng     []byte
 	resumed, ok    bool
 	err            string
+}
+
+// shortReader wraps crypto/rand: every Read returns at most `chunk` bytes (legal for an
+// io.Reader) and everything handed out is recorded, so that the oracle can check that each
+// explicit CBC IV on the wire is a run of bytes the random source actually produced.
+type shortReader struct {
+	mu    sync.Mutex
+	chunk int
+	out   []byte
+}
+
+func (s *shortReader) Read(p []byte) (int, error) {
+	if len(p) > s.chunk {
+		p = p[:s.chunk]
+	}
+	n, err := rand.Read(p)
+	s.mu.Lock()
+	s.out = append(s.out, p[:n]...)
+	s.mu.Unlock()
+	return n, err
+}
+
+func (s *shortReader) bytes() []byte {
+	if s == nil {
+		return nil
+	}
+	s.mu.Lock()
+	defer s.mu.Unlock()
+	return append([]byte(nil), s.out...)
 }
 
 // recording session caches ---------------------------------------------------
@@ -234,6 +264,8 @@ type hsCfg struct {
 	auth, resume   bool
 	nc, ns, pmtu   int
 	seed           uint64
+	rshort         int // > 0: Config.Rand of both sides returns at most rshort bytes per Read (and is recorded)
+	msz            int // > 0: cap on the size of one application message
 }
 
 func isECDHE(id uint16) bool { return id == 0xe011 || id == 0xe051 }
@@ -246,6 +278,11 @@ func runTLCP(cfg hsCfg) (cp capture) {
 		CipherSuites: []uint16{cfg.suite}, SessionCache: cc}
 	scfg := &tlcp.Config{Certificates: []tlcp.Certificate{pair.TCert(s.SrvSig), pair.TCert(s.SrvEnc)}, Time: pki.NowFn,
 		CipherSuites: []uint16{cfg.suite}, SessionCache: sc}
+	var crd, srd *shortReader
+	if cfg.rshort > 0 {
+		crd, srd = &shortReader{chunk: cfg.rshort}, &shortReader{chunk: cfg.rshort}
+		ccfg.Rand, scfg.Rand = crd, srd
+	}
 	if cfg.auth {
 		ccfg.Certificates = []tlcp.Certificate{pair.TCert(s.CliSig), pair.TCert(s.CliEnc)}
 		scfg.ClientAuth = tlcp.RequireAndVerifyClientCert
@@ -269,8 +306,12 @@ func runTLCP(cfg hsCfg) (cp capture) {
 		return
 	}
 	rnd := hx.NewRand(cfg.seed)
-	cm, call := genMsgs(rnd, cfg.nc, 16384*2)
-	sm, sall := genMsgs(rnd, cfg.ns, 16384*2)
+	maxMsg := 16384 * 2
+	if cfg.msz > 0 {
+		maxMsg = cfg.msz
+	}
+	cm, call := genMsgs(rnd, cfg.nc, maxMsg)
+	sm, sall := genMsgs(rnd, cfg.ns, maxMsg)
 	if err := exchange(c, sv, cm, sm, len(call), len(sall)); err != nil {
 		cp.err = "data:" + err.Error()
 		return
@@ -281,6 +322,7 @@ func runTLCP(cfg hsCfg) (cp capture) {
 	cp.c2s, cp.s2c = ce.SentBytes(), se.SentBytes()
 	cp.master, cp.smast = cc.master, sc.master
 	cp.sentc, cp.sents = call, sall
+	cp.crng, cp.srng = crd.bytes(), srd.bytes()
 	if !isECDHE(cfg.suite) && !cp.resumed {
 		for _, m := range tlcpHandshakeMsgs(cp.c2s) {
 			if m[0] == 16 {
@@ -303,6 +345,11 @@ func runDTLCP(cfg hsCfg) (cp capture) {
 	ccfg.PMTU, scfg.PMTU = cfg.pmtu, cfg.pmtu
 	// no retransmission while a slow peer computes: the capture should be one clean run
 	ccfg.InitialRetransmitTimeout, scfg.InitialRetransmitTimeout = 3*time.Second, 3*time.Second
+	var crd, srd *shortReader
+	if cfg.rshort > 0 {
+		crd, srd = &shortReader{chunk: cfg.rshort}, &shortReader{chunk: cfg.rshort}
+		ccfg.Rand, scfg.Rand = crd, srd
+	}
 	if cfg.auth {
 		ccfg.Certificates = []dtlcp.Certificate{pair.DCert(s.CliSig), pair.DCert(s.CliEnc)}
 		scfg.ClientAuth = dtlcp.RequireAndVerifyClientCert
@@ -333,6 +380,9 @@ func runDTLCP(cfg hsCfg) (cp capture) {
 	if maxMsg > 16384 {
 		maxMsg = 16384
 	}
+	if cfg.msz > 0 && cfg.msz < maxMsg {
+		maxMsg = cfg.msz
+	}
 	cm, call := genMsgs(rnd, cfg.nc, maxMsg)
 	sm, sall := genMsgs(rnd, cfg.ns, maxMsg)
 	if err := exchange(c, sv, cm, sm, len(call), len(sall)); err != nil {
@@ -350,6 +400,7 @@ func runDTLCP(cfg hsCfg) (cp capture) {
 	}
 	cp.master, cp.smast = cc.master, sc.master
 	cp.sentc, cp.sents = call, sall
+	cp.crng, cp.srng = crd.bytes(), srd.bytes()
 	if !isECDHE(cfg.suite) && !cp.resumed {
 		if b := dtlcpMessage(cp.c2s, 16); b != nil {
 			cp.pre = openCKE(b)
@@ -367,8 +418,8 @@ func b01(b bool) int {
 }
 
 func hsDesc(c hsCfg) string {
-	return fmt.Sprintf("op=hs stack=%s suite=%d auth=%d resume=%d nc=%d ns=%d pmtu=%d seed=%d",
-		c.stack, c.suite, b01(c.auth), b01(c.resume), c.nc, c.ns, c.pmtu, c.seed)
+	return fmt.Sprintf("op=hs stack=%s suite=%d auth=%d resume=%d nc=%d ns=%d pmtu=%d seed=%d rshort=%d msz=%d",
+		c.stack, c.suite, b01(c.auth), b01(c.resume), c.nc, c.ns, c.pmtu, c.seed, c.rshort, c.msz)
 }
 
 // executeHS runs the configuration part of desc; it returns the captured tokens (appended to
@@ -383,6 +434,7 @@ func executeHSFull(desc string) (captured, obs string) {
 	cfg.resume = kvU64(desc, "resume") == 1
 	cfg.nc, cfg.ns, cfg.pmtu = int(kvU64(desc, "nc")), int(kvU64(desc, "ns")), int(kvU64(desc, "pmtu"))
 	cfg.seed = kvU64(desc, "seed")
+	cfg.rshort, cfg.msz = int(kvU64(desc, "rshort")), int(kvU64(desc, "msz"))
 	var cp capture
 	if p := hx.Guard(func() {
 		if cfg.stack == "tlcp" {
@@ -396,8 +448,9 @@ func executeHSFull(desc string) (captured, obs string) {
 	if !cp.ok {
 		return "", "ok=0 err=" + strings.ReplaceAll(cp.err, " ", "_")
 	}
-	captured = fmt.Sprintf("master=%s smaster=%s pre=%s c2s=%s s2c=%s sentc=%s sents=%s",
-		hx.Hex(cp.master), hx.Hex(cp.smast), hx.Hex(cp.pre), hx.Hex(cp.c2s), hx.Hex(cp.s2c), hx.Hex(cp.sentc), hx.Hex(cp.sents))
+	captured = fmt.Sprintf("master=%s smaster=%s pre=%s c2s=%s s2c=%s sentc=%s sents=%s crng=%s srng=%s",
+		hx.Hex(cp.master), hx.Hex(cp.smast), hx.Hex(cp.pre), hx.Hex(cp.c2s), hx.Hex(cp.s2c), hx.Hex(cp.sentc), hx.Hex(cp.sents),
+		hx.Hex(cp.crng), hx.Hex(cp.srng))
 	obs = fmt.Sprintf("ok=1 resumed=%d cfin=%s sfin=%s", b01(cp.resumed), hx.Hex(cp.cfin), hx.Hex(cp.sfin))
 	return
 }
@@ -422,6 +475,16 @@ func hsCases(o hx.Opts, emit func(string)) {
 		reps = 27 // 27 x 24 configurations = 648 handshakes
 	}
 	reps *= o.Scale
+	// a random source that returns short reads, CBC suites, many small records each way:
+	// every explicit IV must be fresh bytes of the source and no IV may repeat under a key
+	for rep := 0; rep < reps; rep++ {
+		for _, st := range []string{"tlcp", "dtlcp"} {
+			for _, id := range []uint16{0xe013, 0xe011} {
+				emit(hsDesc(hsCfg{stack: st, suite: id, auth: isECDHE(id), nc: 90 + r.Intn(40), ns: 90 + r.Intn(40),
+					seed: r.U64() >> 1, rshort: hx.Pick(r, []int{1, 1, 2, 5}), msz: 24}))
+			}
+		}
+	}
 	for rep := 0; rep < reps; rep++ {
 		for _, st := range []string{"tlcp", "dtlcp"} {
 			for _, id := range suites {
@@ -434,6 +497,7 @@ func hsCases(o hx.Opts, emit func(string)) {
 						if st == "dtlcp" {
 							c.pmtu = hx.Pick(r, []int{0, 0, 576, 1400, 9000})
 						}
+						c.rshort = hx.Pick(r, []int{0, 0, 1, 3, 16})
 						emit(hsDesc(c))
 					}
 				}
